@@ -128,6 +128,7 @@ def gather(tier: str, seed: int, want: Callable[[Model, gen.Unit, str, corpus.De
     with ThreadPoolExecutor(16) as ex:
         gens = list(ex.map(lambda d: gen.generate(d, 'rust'), descs))
     cands: Dict[Tuple[str, str], List[KItem]] = {}
+    core_items: List[KItem] = []
     for d, g in zip(descs, gens):
         for t, why in g.failed.items():
             info['gen_failed_known'][f'{d.id}/{t}'] = why
@@ -150,9 +151,13 @@ def gather(tier: str, seed: int, want: Callable[[Model, gen.Unit, str, corpus.De
                     info['beyond_cap'].append(f'{u.desc_id}/{t}')
                     continue
                 for k in kinds:
-                    cands.setdefault((d.family, cls), []).append(KItem(u, mdl, t, k, L, cls, d.family))
+                    it_ = KItem(u, mdl, t, k, L, cls, d.family)
+                    if d.core and tier == 'quick' and not d.id.endswith('_be'):
+                        core_items.append(it_)
+                    else:
+                        cands.setdefault((d.family, cls), []).append(it_)
     rnd = random.Random(seed)
-    chosen: List[KItem] = []
+    chosen: List[KItem] = list(core_items)
     for (fam, cls), items in sorted(cands.items()):
         q = quotas.get(f'{fam}:{cls}', quotas.get(cls, 0))
         if q <= 0:
@@ -167,7 +172,8 @@ def gather(tier: str, seed: int, want: Callable[[Model, gen.Unit, str, corpus.De
         rest = [i for i in range(len(items)) if i not in idx]
         idx += rnd.sample(rest, min(q - len(idx), len(rest)))
         chosen.extend(items[i] for i in sorted(idx))
-    info['candidates'] = sum(len(v) for v in cands.values())
+    info['candidates'] = sum(len(v) for v in cands.values()) + len(core_items)
+    info['core_items'] = len(core_items)
     return chosen, info
 
 
